@@ -150,6 +150,10 @@ def run(tier, seed, replay=None):
                           "the text overview on an 80-column console crops cells with an ellipsis: " + [ln for ln in text.splitlines() if "\u2026" in ln][0].strip()[:120])
         else:
             chk.nontrivial.add(("narrow", i))
+    # ---- the findings list (proved as C02_findings): both formats, around the 10-row cut-off, full / not full, with / without a
+    #      repository — rows, order and the exact number of omitted rows (seeded change C18-22)
+    import c02
+    c02.findings_cases(chk, 150 if tier == "quick" else 5000)
     cases = []
     for i in range(700 if tier == "quick" else 30000):
         langs = rng.sample(LANG_POOL, rng.choice([0, 1, 1, 2, 3, 4]))
@@ -194,6 +198,6 @@ def run(tier, seed, replay=None):
              "between the two, figures equal or differing by small deltas, large values; cells read back from the "
              "ScanResultTable object and from the Markdown lines; judged against the stored numbers (leading integer, "
              "annotation iff differs and equal to current - previous for languages in both and totals, ordering by lines "
-             "of code, formats equal).  The findings part of the property is proved and checked in C02 "
-             "(C02_findings).  Non-trivial: comparison present, >= 2 languages, one shared.",
+             "of code, formats equal).  The findings part of the property is proved in C02 "
+             "(C02_findings); its rendering (both formats, cut-off at ten, full / not full, with / without repository) is checked here too.  Non-trivial: comparison present, >= 2 languages, one shared.",
         assumptions=["LC_ALL=C so that the :n format is plain decimal"])
